@@ -1,6 +1,6 @@
 (* Soundness of the executable property checkers of ScanCheck.v (used by the driver to
    decide PROPFAIL on the implementation's observations). *)
-From Coq Require Import List ZArith Bool Lia Permutation Sorting.Mergesort.
+From Coq Require Import List ZArith Bool Lia Permutation Sorting.Mergesort Sorting.Sorted RelationClasses.
 From LMBase Require Import IEEE.
 From LMScan Require Import ScanCheck.
 Import ListNotations.
@@ -124,4 +124,79 @@ Proof.
     intros _ h Hh. destruct (in_dec Z.eq_dec (fst h) consumed) as [Hin|Hn]; auto.
     exfalso. assert (In h (remaining scores thr consumed)) by (apply in_remaining; auto).
     rewrite Er in H. destruct H.
+Qed.
+
+(* ---------- the checkers raise no false alarm (completeness) ---------- *)
+
+Lemma zhits_eqb_refl : forall a, zhits_eqb a a = true.
+Proof. induction a as [|x a IH]; simpl; auto. now rewrite zhit_eqb_refl, IH. Qed.
+
+(* a list sorted by position and a list strictly sorted by position that are
+   permutations of each other are equal *)
+Lemma sorted_perm_eq : forall l1 l2 : list zhit,
+  StronglySorted (fun a b => fst a <= fst b) l1 ->
+  StronglySorted (fun a b => fst a < fst b) l2 ->
+  Permutation l1 l2 -> l1 = l2.
+Proof.
+  induction l1 as [|a l1 IH]; intros l2 H1 H2 Hp.
+  - apply Permutation_nil in Hp. now subst.
+  - destruct l2 as [|b l2]; [apply Permutation_sym, Permutation_nil in Hp; discriminate|].
+    apply StronglySorted_inv in H1. destruct H1 as (H1 & Ha).
+    apply StronglySorted_inv in H2. destruct H2 as (H2 & Hb).
+    rewrite Forall_forall in Ha, Hb.
+    assert (a = b).
+    { assert (Hin : In a (b :: l2)) by (apply (Permutation_in _ Hp); now left).
+      assert (Hin' : In b (a :: l1)) by (apply (Permutation_in _ (Permutation_sym Hp)); now left).
+      destruct Hin as [E|Hin]; [now subst|]. destruct Hin' as [E|Hin']; [now subst|].
+      pose proof (Hb a Hin). pose proof (Ha b Hin'). lia. }
+    subst b. f_equal. apply IH; auto. now apply Permutation_cons_inv in Hp.
+Qed.
+
+Lemma qual_from_sorted : forall scores k thr,
+  StronglySorted (fun a b : zhit => fst a < fst b) (qual_from k scores thr).
+Proof.
+  induction scores as [|x rest IH]; intros k thr; simpl; [constructor|].
+  destruct (bits_ge x thr); auto.
+  constructor; auto. apply Forall_forall. intros h Hh. apply qual_from_lb in Hh. simpl. lia.
+Qed.
+
+Lemma sort_sorted (l : list zhit) : StronglySorted (fun a b => fst a <= fst b) (HitSort.sort l).
+Proof.
+  assert (Ht : Transitive (fun a b : zhit => is_true (HitOrder.leb a b))).
+  { intros a b c H1 H2. unfold is_true, HitOrder.leb in *.
+    apply Z.leb_le in H1. apply Z.leb_le in H2. apply Z.leb_le. lia. }
+  pose proof (HitSort.StronglySorted_sort l Ht) as Hs.
+  induction Hs as [|a l' Hs IH Hf]; constructor; auto.
+  eapply Forall_impl; [|exact Hf]. intros b Hb. unfold is_true, HitOrder.leb in Hb. now apply Z.leb_le.
+Qed.
+
+(* every hit list that has the property passes check_c02 *)
+Lemma check_c02_complete scores thr hits :
+  Permutation hits (qual scores thr) -> check_c02 scores thr hits = true.
+Proof.
+  intros Hp. unfold check_c02.
+  rewrite (sorted_perm_eq (HitSort.sort hits) (qual scores thr)).
+  - apply zhits_eqb_refl.
+  - apply sort_sorted.
+  - apply qual_from_sorted.
+  - apply (Permutation_trans (Permutation_sym (HitSort.Permuted_sort hits)) Hp).
+Qed.
+
+(* every answer of max() that has the property passes check_c03 *)
+Lemma check_c03_complete scores thr consumed result :
+  match result with
+  | None => forall h, In h (qual scores thr) -> In (fst h) consumed
+  | Some h =>
+      (In h (qual scores thr) /\ ~ In (fst h) consumed) /\
+      forall q, In q (qual scores thr) -> ~ In (fst q) consumed -> bits_ge (snd h) (snd q) = true
+  end ->
+  check_c03 scores thr consumed result = true.
+Proof.
+  unfold check_c03. destruct result as [h|].
+  - intros ((Hq & Hn) & Hd). apply andb_true_intro. split.
+    + apply existsb_exists. exists h. split; [now apply in_remaining|apply zhit_eqb_refl].
+    + apply forallb_forall. intros q Hq'. apply in_remaining in Hq'. destruct Hq' as (Hq1 & Hq2). now apply Hd.
+  - intros H. destruct (remaining scores thr consumed) as [|x l] eqn:Er; auto.
+    assert (Hx : In x (remaining scores thr consumed)) by (rewrite Er; now left).
+    apply in_remaining in Hx. destruct Hx as (Hx1 & Hx2). exfalso. apply Hx2. now apply H.
 Qed.
